@@ -298,7 +298,115 @@ func TestVerifUDP(t *testing.T) {
 		}
 		stats["park scenarios"]++
 	}
+	// a datagram larger than the reader's buffer: the handler must read exactly the datagram, then the next one
+	nbig := 2
+	if os.Getenv("VERIF_TIER") == "thorough" {
+		nbig = 12
+	}
+	for k := 0; k < nbig; k++ {
+		size, rb := r.pick(300, 2500, 5000), r.pick(64, 100, 2048)
+		fmt.Fprintf(out.cases, "udp big size=%d readbuf=%d\n", size, rb)
+		out.cases.Flush()
+		sig, desc := udpBigDatagramScenario(size, rb)
+		if sig != "" {
+			out.fail(n+npark+k, sig, desc)
+			fmt.Fprintf(out.out, "FAIL %s\n", sig)
+		} else {
+			fmt.Fprintf(out.out, "ok big\n")
+		}
+		stats["big-datagram scenarios"]++
+	}
 	out.stats(stats)
+}
+
+// udpBigDatagramScenario: after another client's large datagrams went through the pooled receive buffers, a client sends one
+// datagram of `size` bytes and then a short one; its handler reads with a buffer of `rb` bytes
+func udpBigDatagramScenario(size, rb int) (sig, desc string) {
+	pc, err := net.ListenPacket("udp", "127.0.0.1:0")
+	if err != nil {
+		return "", ""
+	}
+	server := &Server{logger: zap.NewNop()}
+	type res struct {
+		got  []byte
+		next []byte
+	}
+	resCh := make(chan res, 1)
+	route := &Route{}
+	route.middleware = append(route.middleware, wrapHandler(NextHandlerFunc(func(cx *Connection, _ Handler) error {
+		big := make([]byte, 9000)
+		k, err := cx.Read(big[:4])
+		if err != nil {
+			return nil
+		}
+		if string(big[:k]) != "BIG:" {
+			// the other client: swallow its datagrams whole
+			for {
+				if _, err := cx.Read(big); err != nil {
+					return nil
+				}
+			}
+		}
+		got := append([]byte(nil), big[:k]...)
+		buf := make([]byte, rb)
+		for len(got) < size {
+			k, err := cx.Read(buf)
+			if err != nil {
+				break
+			}
+			got = append(got, buf[:k]...)
+		}
+		k, _ = cx.Read(buf)
+		resCh <- res{got, append([]byte(nil), buf[:k]...)}
+		return nil
+	})))
+	server.compiledRoute = RouteList{route}.Compile(zap.NewNop(), time.Second, nopHandler{})
+	serveDone := make(chan error, 1)
+	go func() { serveDone <- server.servePacket(pc) }()
+	defer func() {
+		pc.Close()
+		select {
+		case <-serveDone:
+		case <-time.After(2 * time.Second):
+		}
+	}()
+	other, _ := net.Dial("udp", pc.LocalAddr().String())
+	defer other.Close()
+	for i := 0; i < 4; i++ {
+		other.Write(bytes.Repeat([]byte{'S'}, 8000))
+		time.Sleep(2 * time.Millisecond)
+	}
+	cl, _ := net.Dial("udp", pc.LocalAddr().String())
+	defer cl.Close()
+	d1 := make([]byte, size)
+	copy(d1, "BIG:")
+	for i := 4; i < size; i++ {
+		d1[i] = byte('a' + i%23)
+	}
+	cl.Write(d1)
+	time.Sleep(5 * time.Millisecond)
+	cl.Write([]byte("END\n"))
+	select {
+	case r := <-resCh:
+		if !bytes.Equal(r.got, d1) {
+			return "udp-datagram-stream", fmt.Sprintf("a %d-byte datagram read with a %d-byte buffer: the handler read %d bytes that are not the datagram (first difference at %d)", size, rb, len(r.got), firstDiff(r.got, d1))
+		}
+		if string(r.next) != "END\n" {
+			return "udp-datagram-stream", fmt.Sprintf("after a %d-byte datagram read with a %d-byte buffer the next read returned %d bytes that are not the next datagram", size, rb, len(r.next))
+		}
+	case <-time.After(3 * time.Second):
+		return "udp-datagram-stream", fmt.Sprintf("a %d-byte datagram read with a %d-byte buffer: the handler did not get the datagram and its successor within 3 s", size, rb)
+	}
+	return "", ""
+}
+
+func firstDiff(a, b []byte) int {
+	for i := 0; i < len(a) && i < len(b); i++ {
+		if a[i] != b[i] {
+			return i
+		}
+	}
+	return min(len(a), len(b))
 }
 
 // udpParkScenario: `others` associations whose handlers wait, one busy association whose queue is filled by a burst (the loop
@@ -401,4 +509,27 @@ func udpParkScenario(others, burst int) (sig, desc string) {
 		return "udp-loop-stuck", "the formerly busy client is not served by a fresh association after its handler ended"
 	}
 	return "", ""
+}
+
+// TestVerifUDPBig: the big-datagram scenarios alone (a stage of C01: over UDP too a handler reads the client's stream exactly)
+func TestVerifUDPBig(t *testing.T) {
+	out := vopen(t, "udpbig")
+	defer out.close()
+	r := &vrng{vseed()*15485863 + 3}
+	n := vcount(6)
+	stats := map[string]int{}
+	for k := 0; k < n; k++ {
+		size, rb := r.pick(300, 2049, 2500, 5000, 8500), r.pick(64, 100, 2048, 4096)
+		fmt.Fprintf(out.cases, "udp big size=%d readbuf=%d\n", size, rb)
+		out.cases.Flush()
+		sig, desc := udpBigDatagramScenario(size, rb)
+		if sig != "" {
+			out.fail(k, sig, desc)
+			fmt.Fprintf(out.out, "FAIL %s\n", sig)
+		} else {
+			fmt.Fprintf(out.out, "ok big\n")
+		}
+		stats[fmt.Sprintf("readbuf=%d", rb)]++
+	}
+	out.stats(stats)
 }
